@@ -61,4 +61,5 @@ c4bdc93 C12
 80a8a29 C11
 b33e5d2 C15
 4285d0b C12
+b2f388a C19
 LIST
